@@ -167,6 +167,28 @@ pub fn is_zero_spec(k: u8) {
     vcover!(true, "end reached");
 }
 
+/// `/` and `%` with a CONCRETE right operand `cr` (per stamp) and a symbolic left operand.
+/// The fully symbolic value harnesses for these two operators do not finish under bit-blasting
+/// (two divider / fmod circuits; measured 900 s timeouts), and float `%` is outside engine M, so
+/// this family is what decides the value of float `%` at all: for each stamped divisor, every
+/// dividend of the left kind. An operand swap or a wrong conversion in any arm shows up here.
+pub fn arith_cr(op: u8, ka: u8, kb: u8, cr: f64) {
+    let a = num(ka);
+    let b = match kb {
+        I => Object::Integer(cr as i64),
+        F => Object::Float(cr),
+        _ => Object::Byte(cr as u8),
+    };
+    sym::assume(!b.is_zero());
+    let r = apply(op, &a, &b);
+    match ref_arith(op, view(&a), view(&b)) {
+        Some(w) => assert!(same(view(&r), w), "VERIF: operator result differs from the numeric model"),
+        None => panic!("VERIF: unreachable, the stamped divisor is not zero"),
+    }
+    std::mem::forget(r);
+    vcover!(true, "end reached");
+}
+
 pub const AND: u8 = 0;
 pub const OR: u8 = 1;
 pub const XOR: u8 = 2;
